@@ -109,6 +109,7 @@ type Thread struct {
 	panicked bool
 	panicVal any
 	stack    string
+	tag      string
 
 	hist   uint64
 	steps  int
@@ -150,12 +151,12 @@ type Op struct {
 	Name     string
 	Obj      *Obj
 	ReadOnly bool
-	Enabled  func() bool               // nil: always enabled
-	NAlts    func() int                // nil: 1; alternatives beyond 0 cost one deviation each
-	Exec     func(t *Thread, alt int)  // runs in the scheduler goroutine
-	Code     uint64                    // extra value mixed into the history (e.g. operation result)
-	FreeAlts bool                      // alternatives are environment/input choices, not deviations
-	Global   bool                      // may wake other threads (close, cancel): dependent with every other transition
+	Enabled  func() bool              // nil: always enabled
+	NAlts    func() int               // nil: 1; alternatives beyond 0 cost one deviation each
+	Exec     func(t *Thread, alt int) // runs in the scheduler goroutine
+	Code     uint64                   // extra value mixed into the history (e.g. operation result)
+	FreeAlts bool                     // alternatives are environment/input choices, not deviations
+	Global   bool                     // may wake other threads (close, cancel): dependent with every other transition
 
 	isSel      bool
 	cases      []Case
@@ -261,17 +262,20 @@ type Sched struct {
 	timers     []*chanCore
 	timersLive bool
 
-	trace  []int
-	nalts  []int
-	costs  [][]int
-	descr  []string
-	fail   string
-	races  []string
-	raceKey map[string]bool
-	shadow map[uintptr]*shadowLoc
+	trace    []int
+	nalts    []int
+	costs    [][]int
+	descr    []string
+	fail     string
+	races    []string
+	raceLocs []string
+	promote  map[string]bool
+	plain    map[uintptr]*Obj
+	raceKey  map[string]bool
+	shadow   map[uintptr]*shadowLoc
 
-	onStep []func() string
-	onEnd  []func() string
+	onStep  []func() string
+	onEnd   []func() string
 	outcome []string
 
 	monitor *Obj
@@ -544,7 +548,6 @@ func (s *Sched) complete(t *Thread, o *Obj, code uint64, readonly bool) {
 		t.hist = mix(t.hist, 0, code)
 	}
 }
-
 
 // History bookkeeping for channels. A channel has three independently hashed parts:
 // its buffer/closed state (obj.hist), the set of parked receivers (hRQ) and the set
